@@ -212,6 +212,7 @@ pub fn scenario_for(mode: Mode, name: &str) -> Option<BoxedScenario> {
         "wits_presence" => Some(wits_presence(mode)),
         "ppu_absent_corner" => Some(ppu_corner(mode, false)),
         "ppu_present_corner" => Some(ppu_corner(mode, true)),
+        "fixed_tx_after_history" => Some(Box::new(crate::props::c04::sc_roundtrip_after_history(3))),
         _ => {
             let r = name.strip_prefix("root:")?;
             let stat: &'static str = gen::roots().into_iter().find(|x| x.0 == r)?.0;
@@ -254,5 +255,12 @@ pub fn run(tier: Tier, seed: u64) -> i32 {
     rep.assume("nesting depth of scripts / Plutus data / metadata <= 3 (4 with all containers)");
     rep.trusted_base = vec!["harness/src/refcbor.rs (well-formedness)".into(), "the types' own PartialEq for value equality".into()];
     run_generators(&mut rep, Mode::C01, tier, seed);
+    // the byte-preserving transaction type is a value built by load + operations
+    let depth = if tier.thorough() { 3 } else { 2 };
+    let f = crate::props::c04::sc_roundtrip_after_history(depth);
+    let st = explore("fixed_tx_after_history", &f, &Opts::new(seed));
+    rep.bound("fixed_tx_history_depth", json!(depth));
+    rep.add("fixed_tx_after_history", "5 base transactions x 4 load paths x every history of operations up to the depth", st);
+    rep.required_hits.push("fixed-transaction-round-trips-after-history");
     rep.finish()
 }
